@@ -415,11 +415,18 @@ def corr_discrete(ts, kw, rec, fit, batch, tag):
     i_lik = batch.add("lik", dict(grid=_hx(grid), eps=f2h(eps), mu=f2h(mu), spans=_hx(spans)), dict(tag=tag))
     # maximization candidates: for every recorded short call, every edge with that count, every parent index
     cand = {}
+    skip = set()          # recorded maximization calls left unverified (budget): indices into rec["pmf"]
     if method == "maximization":
-        for (_, k, lam) in rec["pmf"]:
+        nshort = 0
+        for ci, (_, k, lam) in enumerate(rec["pmf"]):
             if lam.size == G * (G + 1) // 2 and G > 1:
                 continue
             yi = lam.size - 1
+            if lam.size < G:
+                nshort += 1
+                if nshort > 10:
+                    skip.add(ci)
+                    continue
             for sp in sorted({e[2] for e in edges if e[0] == k}):
                 for pi in range(yi, G):
                     key = (yi, pi, sp)
@@ -445,9 +452,11 @@ def corr_discrete(ts, kw, rec, fit, batch, tag):
                         model_sets.setdefault(k, set()).add(tuple(rr[0]))
         bad = []
         seen = {}
-        for (name, k, lam) in rec["pmf"]:
+        for ci, (name, k, lam) in enumerate(rec["pmf"]):
             key = tuple(f2h(x) for x in lam)
             seen.setdefault(k, set()).add(key)
+            if ci in skip:
+                continue
             if key not in model_sets.get(k, set()):
                 bad.append(("poisson-argument-not-in-model",
                             f"{tag}: a Poisson parameter vector passed to {name} (k={k}, len={lam.size}) is not "
